@@ -14,6 +14,7 @@
 
 #include <array>
 #include <atomic>
+#include <csignal>
 #include <future>
 #include <memory>
 #include <mutex>
@@ -526,6 +527,13 @@ namespace Pistache::Aio
                         pthread_setname_np(pthread_self(),
                                            threadsName_.substr(0, 15).c_str());
                     }
+                    // Every socket write of the framework happens on a worker thread. A peer that
+                    // resets its connection while a response is being written (send, sendfile)
+                    // must make the write fail with EPIPE, not kill the process with SIGPIPE.
+                    sigset_t pipeSignal;
+                    sigemptyset(&pipeSignal);
+                    sigaddset(&pipeSignal, SIGPIPE);
+                    pthread_sigmask(SIG_BLOCK, &pipeSignal, nullptr);
                     sync->assignThread();
                     assigned.set_value();
                     sync->loop();
